@@ -105,6 +105,7 @@ pub struct RefOut {
     pub inexact_from: Option<usize>,
     pub stale_after_update: u64,
     pub used_after_unchanged: u64,
+    pub edges: Vec<&'static str>,
 }
 
 pub fn run_ref(s: &Script, c: &Compiled) -> RefOut {
@@ -118,13 +119,13 @@ pub fn run_ref(s: &Script, c: &Compiled) -> RefOut {
     let total = mach.energy;
     let mach_grows: Vec<u32> = mach.grow_requests.clone();
     let mut skip = None;
-    let (logs, v0_state, actions, return_value, v1_state, changed_called, modified, interrupts, recs, inexact, inexact_from, stale, unch) = match mach.host {
-        Host::V0(m) => (m.sh.logs, m.state, m.actions, vec![], vec![], false, false, vec![], m.meter.recs, m.meter.inexact, m.meter.inexact_from, 0, 0),
+    let (logs, v0_state, actions, return_value, v1_state, changed_called, modified, interrupts, recs, inexact, inexact_from, stale, unch, edges) = match mach.host {
+        Host::V0(m) => (m.sh.logs, m.state, m.actions, vec![], vec![], false, false, vec![], m.meter.recs, m.meter.inexact, m.meter.inexact_from, 0, 0, m.meter.edges),
         Host::V1(m) => {
             if let Some(u) = &m.unjudged {
                 skip = Some(u.clone());
             }
-            (m.sh.logs, vec![], vec![], m.rv, m.contents.into_iter().collect(), m.changed_called, m.modified, m.interrupts, m.meter.recs, m.meter.inexact, m.meter.inexact_from, m.stale_after_update, m.used_after_unchanged)
+            (m.sh.logs, vec![], vec![], m.rv, m.contents.into_iter().collect(), m.changed_called, m.modified, m.interrupts, m.meter.recs, m.meter.inexact, m.meter.inexact_from, m.stale_after_update, m.used_after_unchanged, m.meter.edges)
         }
     };
     let outcome = match r {
@@ -178,7 +179,27 @@ pub fn run_ref(s: &Script, c: &Compiled) -> RefOut {
     let mut pending: Vec<(usize, u64)> = vec![];
     let (mut g_acc, mut ri, mut gi) = (0u64, 0usize, 0usize);
     let mut stopped = false;
+    // invokes of the nested helper run before the calls of the script
+    if let Some(d) = &s.deep {
+        let (k, hit_limit) = d.reached(MAX_ACTIVATION_FRAMES);
+        for _ in 0..k.min(recs.len()) {
+            let rec = recs[ri].clone();
+            g_at_raw.push(0);
+            raw_to_merged.push(merged.len());
+            if rec.trapped {
+                stopped = true;
+            }
+            merged.push(rec);
+            ri += 1;
+        }
+        if hit_limit {
+            stopped = true;
+        }
+    }
     for c in &s.calls {
+        if stopped {
+            break;
+        }
         if c.f == GROW {
             if gi >= grows.len() {
                 stopped = true;
@@ -235,7 +256,7 @@ pub fn run_ref(s: &Script, c: &Compiled) -> RefOut {
     let inexact_from = inexact_from.map(|f| raw_to_merged.get(f).copied().unwrap_or(merged.len()));
     let total = total + g_acc;
     let recs = merged;
-    RefOut { outcome, skip, total, exact: !inexact, logs, v0_state, actions, return_value, v1_state, changed_called, modified, interrupts, recs, inexact_from, stale_after_update: stale, used_after_unchanged: unch }
+    RefOut { outcome, skip, total, exact: !inexact, logs, v0_state, actions, return_value, v1_state, changed_called, modified, interrupts, recs, inexact_from, stale_after_update: stale, used_after_unchanged: unch, edges }
 }
 
 #[derive(Clone, Debug)]
@@ -687,6 +708,30 @@ fn record_cov(sh: &mut Shard, s: &Script, j: &Judged) {
     if matches!(eo.outcome, Outcome::Success | Outcome::Reject(_)) {
         sh.hit(if ro.exact { "energy.exact" } else { "energy.lower_bound" });
     }
+    for e in &ro.edges {
+        sh.hit(e);
+    }
+    if s.tag.starts_with("gate.") {
+        // the first call is the well-formed operation
+        let avail = ro.recs.first().map(|r| !r.trapped).unwrap_or(false) && !ro.interrupts.is_empty();
+        sh.hit(&format!("{}.P{}.{}", s.tag, s.proto, if avail { "available" } else { "refused" }));
+    }
+    if let Some(d) = &s.deep {
+        let (k, hit) = d.reached(MAX_ACTIVATION_FRAMES);
+        sh.hit(if hit { "depth_interrupt.total_over_limit" } else { "depth_interrupt.total_within_limit" });
+        if d.d1 as u64 + d.d2 as u64 == MAX_ACTIVATION_FRAMES as u64 {
+            sh.hit("depth_interrupt.total_exactly_limit");
+        }
+        if d.d1 as u64 + d.d2 as u64 == MAX_ACTIVATION_FRAMES as u64 + 1 {
+            sh.hit("depth_interrupt.total_limit_plus_one");
+        }
+        if k == 2 {
+            sh.hit("depth_interrupt.second_interrupt_at_bottom");
+        }
+        if hit && k == 1 {
+            sh.hit("depth_interrupt.limit_hit_after_resume");
+        }
+    }
     for r in &ro.recs {
         if r.name == GROW {
             sh.hit("grow.charged");
@@ -812,7 +857,14 @@ pub fn run(ctx: &ChildCtx, sh: &mut Shard) {
             let js = judge(&small, &flags);
             let detail = js.findings.iter().find(|x| x.kind == kind && x.class == class).map(|x| x.detail.clone()).unwrap_or_else(|| f.detail.clone());
             let l = small.layout();
-            let calls: Vec<String> = small.calls.iter().map(|c| show_call(&small, &l, c)).collect();
+            let mut calls: Vec<String> = vec![];
+            if let Some(d) = small.recursion {
+                calls.push(format!("recurse {} deep and return", d));
+            }
+            if let Some(d) = &small.deep {
+                calls.push(format!("nest {} activations, invoke(transfer) there, after the resume nest {} further (total {}){}, return", d.d1, d.d2, d.d1 + d.d2, if d.second { ", invoke again at the bottom" } else { "" }));
+            }
+            calls.extend(small.calls.iter().map(|c| show_call(&small, &l, c)));
             let signature = match &class {
                 Some(cl) => {
                     classes_reported.insert(cl.clone());
